@@ -41,7 +41,7 @@ add("C11", "rapid-generated lexer specs without preconditions x texts; invariant
     "Generated-input search with a recording proxy between the real simplelexer and the compiled state machine; the recorded history is replayed over the input bytes: EOF only at the end with nothing pending, tokens = accepted stretches, every byte in a token, a discarded stretch or an ERROR stretch; rejection of the spec with a diagnostic is the only other accepted outcome.",
     "Trusts simplelexer's resync policy as the definition of an ERROR stretch.",
     "DESIGN.md §3 C11")
-HOOK_COMMITS.append("24fefa9")
+HOOK_COMMITS.append("e22fee3")
 add("C10", "rapid-generated specs through the real generator; decoded tables vs. derivative automaton by exhaustive product exploration per spec (equivalence over all strings), parser tables vs. constructed automaton, encoder round-trip over generated row sets (hook)",
     "Generated-input search in layer B: tables are read back from the generated file text by their documented format; lexer equivalence is decided per specification over all strings by exploring the product automaton (capped, skips counted); parser tables compared entry by entry; the row-compressing encoder is round-tripped on adversarial row sets through a verif-tagged hook.",
     "Trusts the derivative automaton as the meaning of the rules and the documented row format; without the hook (untagged build) the encoder sub-check is skipped and counted.",
@@ -62,3 +62,7 @@ add("C12", "rapid-generated and mutated .lox texts through the in-process front 
     "Generated-input search: tens of thousands of structurally mutated specifications per run (corpus = every grammar, example and documentation snippet of the repository + generated specs + hostile constants), every package configuration of a finite list through codegen.Generate with the real go list, a third also through the lox executable; outcome must be output-or-diagnostic, never a panic, a hang or a silent failure.",
     "Hang detection uses generous wall-clock guards and only reports after an independent second run; panics are identified by their first frame inside the repository.",
     "DESIGN.md §3 C12")
+add("C14", "complete sweep of the regeneration configuration space (directory x start state x invocation, seed-ordered) in a scratch copy of the working tree; byte-level round trip, two generator stages",
+    "Exhaustive enumeration of a small finite space on every run: lox built from the working tree regenerates internal/parser and the three examples from every start state and invocation style; a second-stage lox rebuilt from the regenerated tree must reproduce the same bytes.",
+    "A fact about one tree state: generation only varies the circumstances of regeneration.",
+    "DESIGN.md §3 C14")
